@@ -1,7 +1,9 @@
 """Code-translator spec (see harness/translate_code.py and harness/code_specs/__init__.py): `Model.get_value`,
 `Model._get_value` and its nested `expand_derivatives` (cellmlmanip/model.py, C10). Both recursive functions are
 translated with OPEN RECURSION (`rec`); the `evaluated` dictionary, which python mutates in place through the recursive
-calls, is explicit state: `_get_value` returns (value, evaluated). Tie theorems: lean/Cellml/Tie/RolesValue.lean;
+calls, is explicit state: `_get_value` returns (value, evaluated). `fn` (an extra parameter of the generated `_get_value`)
+is the interpretation of the uninterpreted function applications (`Model.Interp`): it is only handed to the leaf
+`float(...)` (`floatExpr fn`), the one place where SymPy evaluates them. Tie theorems: lean/Cellml/Tie/RolesValue.lean;
 accessors: lean/Cellml/Tie/RolesView.lean."""
 
 GROUP = {
@@ -26,7 +28,7 @@ GROUP = {
         {'file': 'cellmlmanip/model.py',
          'func': 'Model._get_value',
          'lean_name': 'getValueRec',
-         'signature': '(self : RModel) (expand_derivatives : Expr → Except PyErr Expr) '
+         'signature': '(self : RModel) (fn : Interp) (expand_derivatives : Expr → Except PyErr Expr) '
                       '(rec : Nat → PyMemo → Except PyErr (Rat × PyMemo)) (variable_ : Nat) (evaluated : PyMemo) '
                       ': Except PyErr (Rat × PyMemo)',
          'params': ['variable', 'evaluated'],
@@ -44,7 +46,7 @@ GROUP = {
                       ('__A.rhs', '(eqRhs self {A})'),
                       ('__A.atoms(Variable)', '(varAtoms {A})'),
                       ('__A.xreplace(evaluated)', '← xreplaceMemo {A} evaluated'),
-                      ('float(__A)', '← floatExpr {A}')],
+                      ('float(__A)', '← floatExpr fn {A}')],
          'stmt_patterns': [('evaluated[__K] = self._get_value(__A, evaluated)',
                             'let (val__, ev__) ← rec {A} evaluated\n'
                             'evaluated := Py.setItem ev__ {K} (pyFloatVal val__)')]},
